@@ -663,9 +663,14 @@ func TestC19(t *testing.T) {
 				Procs: procsets[rapid.IntRange(0, len(procsets)-1).Draw(t, "procs")], WithSearch: rapid.IntRange(0, 9).Draw(t, "withSearch") == 0}
 		}
 	}
-	hx.Sub(r, "plain", r.N(150, 1500), gen(0, true, 40), propC19)
-	hx.Sub(r, "pgn-decorated", r.N(120, 1200), gen(1, true, 25), propC19)
-	hx.Sub(r, "pgn-hostile-decorated", r.N(60, 600), gen(2, false, 12), propC19)
+	r.Inflight(true) // a concurrent map access in the parallel build is a fatal error of the Go runtime, not a panic
+	div := 1
+	if r.Race() {
+		div = 4
+	}
+	hx.Sub(r, "plain", r.N(150, 1500)/div, gen(0, true, 40), propC19)
+	hx.Sub(r, "pgn-decorated", r.N(120, 1200)/div, gen(1, true, 25), propC19)
+	hx.Sub(r, "pgn-hostile-decorated", r.N(60, 600)/div, gen(2, false, 12), propC19)
 }
 
 func TestC20(t *testing.T) {
